@@ -32,6 +32,7 @@ type Loaded struct {
 	regexGlobals map[string]string
 	pureMemo map[*ssa.Function]bool
 	funcTables map[string][]*ssa.Function
+	globalStructs map[*ssa.Global][]globalField
 }
 
 const modulePath = "cuelabs.dev/go/oci/ociregistry"
@@ -86,6 +87,7 @@ func LoadPackages(patterns []string) (*Loaded, error) {
 	L.scanGlobals()
 	L.scanRegexGlobals()
 	L.scanFuncTables()
+	L.scanGlobalStructs()
 	return L, nil
 }
 
